@@ -136,6 +136,124 @@ fn run_case(rep: &mut Report, tw: &TypedWorkspace, case_seed: u64) {
     rep.nontrivial(h);
 }
 
+/// C18, `value.` clause: after `value.` only fields the value's type has. The typed
+/// generator knows the type of the probe values; expected = labels common to all variants.
+fn run_c18_case(rep: &mut Report, tw: &TypedWorkspace, case_seed: u64) {
+    let files = tw.files();
+    let loaded = ws::load_single(&files);
+    let an = loaded.host.snapshot();
+    let replay = json!({"kind":"typed-workspace","files":files_json(&files),"case_seed":case_seed.to_string()});
+    for p in &tw.dot_probes {
+        let file = loaded.file_by_path(&tw.path_of(p.module)).unwrap();
+        rep.evaluations += 1;
+        let out = panicmon::guard(|| an.completions(FilePos::new(file, TextSize::from(p.offset as u32)), Some('.')));
+        let items = match out {
+            Outcome::Ok(Ok(Some(items))) => items,
+            Outcome::Ok(Ok(None)) => Vec::new(),
+            Outcome::Ok(Err(_)) => continue,
+            Outcome::Panicked(pi) => {
+                rep.count("completion_panicked(C10's business)", 1);
+                rep.see("panics_seen", pi.signature());
+                continue;
+            }
+        };
+        let mut got: Vec<String> = items.iter().map(|i| i.label.to_string()).collect();
+        got.sort();
+        got.dedup();
+        let head = p.ty.split('(').next().unwrap_or("").to_string();
+        rep.see("value_dot_cells", format!("{}:{}:{} fields", p.binder, if p.ty.starts_with("#(") { "tuple".to_string() } else if p.ty.starts_with("fn(") { "function".to_string() } else { head }, p.expected.len()));
+        let mut rp = replay.clone();
+        rp["dot"] = json!({"module": p.module, "offset": p.offset, "binder": p.binder, "type": p.ty, "expected": p.expected});
+        if got == p.expected {
+            rep.count("value_dot_sets_equal", 1);
+            if !p.expected.is_empty() {
+                rep.nontrivial(fnv(format!("{case_seed}:{}:{}", p.module, p.offset).as_bytes()));
+            }
+            continue;
+        }
+        let extra: Vec<&String> = got.iter().filter(|g| !p.expected.contains(g)).collect();
+        let missing: Vec<&String> = p.expected.iter().filter(|g| !got.contains(g)).collect();
+        if !extra.is_empty() {
+            rep.violate(format!("value-dot-offers-non-field:{}", p.binder), format!("`v.` on a {} of type {} offers {extra:?}; its fields are {:?}", p.binder, p.ty, p.expected), rp.clone());
+        }
+        if !missing.is_empty() {
+            rep.violate(format!("value-dot-misses-field:{}", p.binder), format!("`v.` on a {} of type {} offers {got:?}; its fields are {:?}", p.binder, p.ty, p.expected), rp);
+        }
+    }
+}
+
+/// C19 clause "a function-typed local is tagged as function" and C05 on typed programs:
+/// every use of a local the generator emitted is recorded with its declaration and the
+/// declaration's type is known by construction.
+fn run_locals_case(rep: &mut Report, prop: &str, tw: &TypedWorkspace, case_seed: u64) {
+    use vh::prog::Bind;
+    let files = tw.files();
+    let loaded = ws::load_single(&files);
+    let an = loaded.host.snapshot();
+    let replay = json!({"kind":"typed-workspace","files":files_json(&files),"case_seed":case_seed.to_string()});
+    for (mi, p) in tw.printed.iter().enumerate() {
+        let file = loaded.file_by_path(&tw.path_of(mi)).unwrap();
+        let hl = if prop == "C19" {
+            match panicmon::guard(|| an.syntax_highlight(file, None)) {
+                Outcome::Ok(Ok(v)) => v,
+                _ => {
+                    rep.count("highlight_failed(C10's business)", 1);
+                    continue;
+                }
+            }
+        } else {
+            Vec::new()
+        };
+        for occ in &p.occs {
+            let Bind::Use { target: Some(d), .. } = occ.ident.bind else { continue };
+            let Some(exp) = tw.expectations.iter().find(|e| e.decl == d && e.module == mi) else { continue };
+            let Some(&(_, decl_focus, decl_name)) = p.decl_ranges.iter().find(|x| x.0 == d) else { continue };
+            rep.evaluations += 1;
+            let is_fn = exp.ty.starts_with("fn(");
+            let mut rp = replay.clone();
+            rp["use"] = json!({"module": mi, "range": [occ.range.0, occ.range.1], "name": occ.ident.text, "declared_at": [decl_name.0, decl_name.1], "type": exp.ty, "binder": exp.what});
+            if prop == "C19" {
+                let tag = hl.iter().find(|h| usize::from(h.range.start()) == occ.range.0 && usize::from(h.range.end()) == occ.range.1).map(|h| format!("{:?}", h.tag));
+                rep.see("local_cells", format!("{}:{}", exp.what, if is_fn { "function-typed" } else { "other" }));
+                match (is_fn, tag.as_deref()) {
+                    (true, Some("Function")) => {
+                        rep.count("function_typed_locals_tagged_function", 1);
+                        rep.nontrivial(fnv(format!("{case_seed}:{mi}:{}", occ.range.0).as_bytes()));
+                    }
+                    (false, None) => rep.count("other_locals_untagged", 1),
+                    (true, other) => rep.violate(
+                        format!("highlight-tag:function-typed-local:{}:got={}", exp.what, other.unwrap_or("none")),
+                        format!("use of `{}` ({}: {}) is tagged {other:?}, a function-typed local must be tagged function", occ.ident.text, exp.what, exp.ty),
+                        rp,
+                    ),
+                    (false, Some(t)) => rep.violate(
+                        format!("highlight-tag:local-of-other-type:{}:got={t}", exp.what),
+                        format!("use of `{}` ({}: {}) is tagged {t}; it is neither a function, constructor nor module", occ.ident.text, exp.what, exp.ty),
+                        rp,
+                    ),
+                }
+            } else {
+                // C05: goto from the use lands on the binder
+                match vh::sema::goto_at(&an, file, occ.range.0) {
+                    vh::sema::Goto::One(t) if t.file == file.0 && t.focus == decl_focus => {
+                        rep.count("typed_local_uses_resolved", 1);
+                        rep.nontrivial(fnv(format!("{case_seed}:{mi}:{}", occ.range.0).as_bytes()));
+                    }
+                    vh::sema::Goto::Panicked(sig) => {
+                        rep.count("goto_panicked(C10's business)", 1);
+                        rep.see("panics_seen", sig);
+                    }
+                    other => rep.violate(
+                        format!("goto-wrong:typed-local-use:{}", exp.what),
+                        format!("use of `{}` at {:?} should land on its {} at {:?}; got {:?}", occ.ident.text, occ.range, exp.what, decl_name, other),
+                        rp,
+                    ),
+                }
+            }
+        }
+    }
+}
+
 fn shape(t: &str) -> String {
     // outermost constructor
     let end = t.find(|c: char| c == '(' || c == ' ').unwrap_or(t.len());
@@ -159,8 +277,13 @@ fn run(args: Args) -> Report {
         let case_seed = r.next_u64();
         let mut cr = Rng::new(case_seed);
         let tw = tgen::generate(&mut cr);
-        journal.begin("c09", files_json(&tw.files()).to_string().as_bytes());
-        run_case(&mut rep, &tw, case_seed);
+        journal.begin("typed", files_json(&tw.files()).to_string().as_bytes());
+        match args.prop.as_str() {
+            "C09" => run_case(&mut rep, &tw, case_seed),
+            "C18" => run_c18_case(&mut rep, &tw, case_seed),
+            "C19" | "C05" => run_locals_case(&mut rep, &args.prop, &tw, case_seed),
+            p => panic!("m_types does not serve {p}"),
+        }
         if rep.samples.len() < 3 && n % 23 == 0 {
             rep.sample(json!({"case_seed": case_seed.to_string(), "module0": truncate_str(&tw.texts[0], 400)}));
         }
